@@ -369,6 +369,46 @@ func (fr *oFrame) rangeStmt(s *ast.RangeStmt) oCtl {
 	case oNil:
 	case oInt:
 		n = int(x)
+	case oMap:
+		// in insertion order (Go's order is unspecified; code under analysis must not depend on it).
+		// Keys and values are snapshotted: entries added during the loop are not visited.
+		var ks, vs []oval
+		if x.keys != nil {
+			ks = append(ks, (*x.keys)...)
+			vs = append(vs, (*x.vals)...)
+		}
+		if len(ks) > fr.it.loopLimit() {
+			return fr.abort("range over %d map entries", len(ks))
+		}
+		for i := range ks {
+			fr.env = &oEnv{vars: map[types.Object]*oval{}, parent: saved}
+			if s.Key != nil {
+				if c := fr.store(s.Key, fr.rvalue(ks[i]), s.Tok == token.DEFINE); c != oNormal {
+					return c
+				}
+			}
+			if s.Value != nil {
+				if c := fr.store(s.Value, fr.rvalue(vs[i]), s.Tok == token.DEFINE); c != oNormal {
+					return c
+				}
+			}
+			c := fr.block(s.Body.List)
+			if c == oLabelled && myLabel != "" && fr.pendingLabel == myLabel {
+				fr.pendingLabel = ""
+				if fr.pendingTok == token.BREAK {
+					return oNormal
+				}
+				continue
+			}
+			switch c {
+			case oBreak:
+				return oNormal
+			case oContinue, oNormal:
+			default:
+				return c
+			}
+		}
+		return oNormal
 	default:
 		return fr.abort("range over %s at %s", showVal(xv), fr.it.p.Position(s.X.Pos()))
 	}
